@@ -45,6 +45,13 @@ const FRAGS: &[Frag] = &[
     f("\\let\\d=\\def ", 0, 0, false, &["alias-execution", "local"]),
     f("\\let\\e=x", 0, 0, false, &["alias-char", "local"]),
     f("\\let\\newname=\\relax ", 0, 0, false, &["interner", "local"]),
+    // interner edge names: the EMPTY control-sequence name (a backslash that ends a line while \endlinechar=-1;
+    // a three-line fragment, its inner line ends are not checkpoints because \def is still scanning there),
+    // a one-character non-ASCII name, and names that are prefixes of each other (\a, \ab, \abc)
+    f("\\endlinechar=-1 \n\\def\\\n{E0}\\endlinechar=13\\relax ", 0, 0, true, &["empty-name", "local"]),
+    f("\\def\\é{E1}", 0, 0, false, &["edge-name", "local"]),
+    f("\\def\\ab{E2}", 0, 0, false, &["edge-name", "local"]),
+    f("\\def\\abc{E3}", 0, 0, false, &["edge-name", "local"]),
     f("\\countdef\\f=5 \\f=55 ", 0, 0, true, &["alias-variable", "local"]),
     f("\\toksdef\\g=6 \\g={tk}", 0, 0, false, &["alias-variable", "local"]),
     f("\\chardef\\h=72 ", 0, 0, false, &["chardef", "local"]),
@@ -83,13 +90,17 @@ const FRAGS: &[Frag] = &[
 const PRELUDE: &str = "\\countdef\\f=9 \\toksdef\\g=9 \\mathchardef\\i=1 \\chardef\\hh=72 \\newInt\\n \\newIntArray\\arr 3 ";
 
 /// Prints every target. Each item is safe whether or not the name is defined.
-const OBSERVE: &str = ";\\a;\\b;\\c\\hh;\\d\\zz{Z}\\zz;\\e;\\the\\f;\\the\\g;\\h;\\the\\i;\\m12.;\\newname;\\the\\n;\\the\\arr 1 ;\\r;\\ifeof 3 c\\else o\\fi;\\the\\count1 ;\\the\\dimen1 ;\\the\\skip1 ;\\the\\toks1 ;\\the\\count5 ;\\the\\toks6 ;\\the\\catcode`\\| ;\\the\\catcode`\\é ;\\the\\mathcode`\\k ;\\the\\mathcode`\\é ;\\the\\endlinechar ;\\the\\globaldefs ;\\the\\year ;\\probefont;~;|;";
+const OBSERVE: &str = ";\\a;\\b;\\c\\hh;\\d\\zz{Z}\\zz;\\e;\\the\\f;\\the\\g;\\h;\\the\\i;\\m12.;\\newname;\\é;\\ab;\\abc;\\firstseeninq;\\the\\n;\\the\\arr 1 ;\\r;\\ifeof 3 c\\else o\\fi;\\the\\count1 ;\\the\\dimen1 ;\\the\\skip1 ;\\the\\toks1 ;\\the\\count5 ;\\the\\toks6 ;\\the\\catcode`\\| ;\\the\\catcode`\\é ;\\the\\mathcode`\\k ;\\the\\mathcode`\\é ;\\the\\endlinechar ;\\the\\globaldefs ;\\the\\year ;\\probefont;~;|;";
 
 /// two plain lines first: a restored lexer that forgets it is past its first line merges them
 const FILE_F: &str = "r1\nr2\n{r3\nr4}\nr5\n";
 
+/// Lexes a line-final backslash from source text while \endlinechar=-1: the empty-name control sequence.
+const OBSERVE_EMPTY_NAME: [&str; 3] = ["{\\endlinechar=-1 ", ";\\", "}"];
+
 fn observer(open_conds: i32, open_groups: i32) -> Vec<String> {
     let mut lines = vec![OBSERVE.to_string()];
+    lines.extend(OBSERVE_EMPTY_NAME.iter().map(|s| s.to_string()));
     for _ in 0..open_conds {
         lines.push(format!("\\fi {OBSERVE}"));
     }
@@ -443,6 +454,8 @@ fn count_state(frs: &[&Frag], acc: &mut Acc) -> bool {
         ("font", "font_selected"),
         ("alloc", "allocated_variable"),
         ("macro-params", "macro_with_parameters"),
+        ("empty-name", "empty_control_sequence_name_defined"),
+        ("edge-name", "non_ascii_or_prefix_name_defined"),
     ] {
         if tags.contains(&t) {
             acc.count(name);
@@ -640,6 +653,8 @@ fn main() {
         ("font_selected", "a font selector ran before the checkpoint"),
         ("allocated_variable", "\\newInt / \\newIntArray variable assigned"),
         ("macro_with_parameters", "macro with delimited and undelimited parameters"),
+        ("empty_control_sequence_name_defined", "the empty control-sequence name is defined before the checkpoint and lexed again from source text after it"),
+        ("non_ascii_or_prefix_name_defined", "a one-character non-ASCII name or a name that is a prefix of another name is defined before the checkpoint"),
     ] {
         ctx.require(c, m);
     }
